@@ -625,6 +625,18 @@ func NewEthWorld(tbl *prog.Table, r *rand.Rand, tid string, tweak func(*chain.Op
 	}
 	pfx := tid + "_"
 	o.Contracts = append(StdMenu(u, tbl, pfx), o.Contracts...)
+	if r.Intn(2) == 0 {
+		// CREATE2 targets of c5 that already are accounts holding coins of the other denomination when the contract
+		// is created there (StateDB.CreateAccount destroys what is there and carries ALL balances over)
+		for _, n := range []string{"k0", "k2"} {
+			if r.Intn(2) == 0 {
+				a := u.A(n)
+				o.ExtraAccts = append(o.ExtraAccts, authtypes.NewBaseAccount(a.Bytes(), nil, 0, 0))
+				o.ExtraBals = append(o.ExtraBals, banktypes.Balance{Address: sdk.AccAddress(a.Bytes()).String(),
+					Coins: sdk.NewCoins(sdk.NewInt64Coin(chain.Denom2, int64(3+r.Intn(9))))})
+			}
+		}
+	}
 	c := chain.New(o)
 	return &World{C: c, U: u, T: tbl, Tid: tid, R: r, NContracts: len(o.Contracts) - nExtra(o.Contracts)}, o
 }
